@@ -5,6 +5,7 @@ test and records a canonical outcome.  Also reports the issubclass table and the
 hierarchy as the interpreter sees them (inputs of the model, CPython built-ins)."""
 import abc
 import inspect
+import warnings
 import os
 import signal
 import sys
@@ -12,11 +13,12 @@ import sys
 sys.path.insert(0, os.path.dirname(os.path.abspath(__file__)))
 import dlib  # noqa: E402
 
-from traits.api import AdaptsTo, HasTraits, Instance, Supports, TraitError  # noqa: E402
+from traits.api import AdaptsTo, Either, HasTraits, Instance, Int, Supports, TraitError  # noqa: E402
 from traits.adaptation.api import (  # noqa: E402
     AdaptationError, AdaptationManager, AdaptationOffer, adapt, set_global_adaptation_manager, supports_protocol)
 
 DEFAULT = object()
+warnings.simplefilter("ignore")      # Either is deprecated in favour of Union; it is what reaches validate_trait_complex
 QUERY_LIMIT_S = 5      # a query that runs longer is reported as a (non-terminating) failure, not waited for
 
 
@@ -30,7 +32,8 @@ class QueryTimeout(BaseException):
 def _alarm(signum, frame):
     raise QueryTimeout()
 
-ATTR = {"inst0": "i0", "inst1": "i1", "inst2": "i2", "Supports": "sup", "AdaptsTo": "ada"}
+ATTR = {"inst0": "i0", "inst1": "i1", "inst2": "i2", "Supports": "sup", "AdaptsTo": "ada",
+        "either0": "e0", "either1": "e1", "either2": "e2"}
 
 
 class Adapter:
@@ -57,6 +60,8 @@ def make_factory(oid, fac):
             ok = len(chain) <= fac[1]
         elif kind == "X":
             ok = not (chain and chain[-1] == fac[1])
+        elif kind == "K":
+            ok = fac[1] in chain
         else:
             raise ValueError(fac)
         return Adapter(adaptee, oid) if ok else None
@@ -109,6 +114,9 @@ def run_case(case):
                 i2 = Instance(T, adapt="default")
                 sup = Supports(T)
                 ada = AdaptsTo(T)
+                e0 = Either(Supports(T), Int)
+                e1 = Either(Int, Supports(T))
+                e2 = Either(Instance(T, adapt="default"), Int)
             holders[tgt] = H
         return holders[tgt]()
 
